@@ -263,6 +263,10 @@ impl Property for C20 {
         shrink_xargs(sc)
     }
 
+    fn crosscheck(sc: &XargsScenario, ctx: &mut Ctx, bins: &std::path::Path) -> crate::crosscheck::Xc {
+        crate::crosscheck::xargs(sc, &sc.read_plan, ctx, bins)
+    }
+
     fn rule() -> &'static str {
         "one evaluation = one seeded scenario (replace option flavour -I R / -i / --replace[=R] with R from a pool incl. multi-byte and self-overlapping strings, initial arguments with 0/1/many/adjacent occurrences of R, input lines with inner blanks, empty lines, lines containing R, missing final newline, empty input; every order of -I/-n/-L; read plan; child-outcome script) run through xargs_main and compared with the reference (one run per non-empty line, whole line substituted everywhere, nothing appended, last option decides); distinct = distinct abstract trace; non-trivial = a fault fired or a mode/shape probe hit"
     }
